@@ -38,6 +38,7 @@ pub fn idle_lines() -> Vec<&'static str> {
         "DIM A(4294967295,4294967295)",
         "DIM B(9223372036854775807)",
         "DIM C(99,100)",
+        "DIM E(1,9223372036854775807)",
         "DIM D(1,1,1,1,1,1,1,1,1,1,1,1,1,1,1,1,1,1,1,1)",
         "A(1)=1",
         "PRINT A(4294967296)",
@@ -71,6 +72,7 @@ pub fn alphabet() -> Vec<Ev> {
         a.push(Ev::Input(r.to_string()));
     }
     a.push(Ev::Replace);
+    a.push(Ev::StopEvaluating);
     for s in [0u64, 1 << 44, u64::MAX] {
         a.push(Ev::Randomize(s));
     }
